@@ -59,9 +59,9 @@ theorem update_visible {key : α → κ} {P : Nat} {s : ASet α} (h : s.Inv key 
 bounds-checked accesses and the two `ptr::copy` shifts as the source has them. -/
 
 /-- The translated `index`, `get`, `contains`, `insert`, `take`, `remove` and `get_mut` + write are the model's
-    functions (a failing bounds check or an out-of-range copy is `none` / `Except.error`), for every set, every
-    element and every prefix maximum `P` — unconditionally. -/
-theorem translated_source_is_the_model (key : α → κ) (P : Nat) (m : ASet α) (x y : α) :
+    functions (a failing bounds check or an out-of-range copy is `none` / `Except.error`), for every set whose length
+    prefix does not exceed its slot count, every element and every prefix maximum `P`. -/
+theorem translated_source_is_the_model (key : α → κ) (P : Nat) (m : ASet α) (hle : m.len ≤ m.vals.length) (x y : α) :
     GenA.index key P m x = (ASet.index key m (key x)).toOption.map Idx.pair ∧
     GenA.get key P m x = (ASet.get key m (key x)).toOption ∧
     GenA.contains key P m x = (ASet.contains key m (key x)).toOption ∧
@@ -72,9 +72,9 @@ theorem translated_source_is_the_model (key : α → κ) (P : Nat) (m : ASet α)
       | some i => ({ m with vals := m.vals.set i y }, true)
       | none => (m, false)) = (ASet.update key m (key x) y).toOption ∧
     GenA.len key P m = m.len ∧ GenA.is_full key P m = m.isFull P ∧ GenA.is_empty key P m = m.isEmpty :=
-  ⟨GenA.index_eq key P m x, GenA.get_eq key P m x, GenA.contains_eq key P m x, GenA.insert_eq key P m x,
-   GenA.take_eq key P m x, GenA.remove_eq key P m x, GenA.get_mut_eq key P m x y, rfl, GenA.is_full_eq key P m,
-   GenA.is_empty_eq key P m⟩
+  ⟨GenA.index_eq key P m hle x, GenA.get_eq key P m hle x, GenA.contains_eq key P m hle x,
+   GenA.insert_eq key P m hle x, GenA.take_eq key P m hle x, GenA.remove_eq key P m hle x,
+   GenA.get_mut_eq key P m hle x y, GenA.len_eq key P m hle, GenA.is_full_eq key P m hle, GenA.is_empty_eq key P m hle⟩
 
 /-- On every well-formed set the translated `insert` / `take` return normally with the model's state and answer
     (hence, by `refines_from`, the reference sorted set's), and lookups return the stored member. -/
